@@ -77,11 +77,18 @@ def fifo_program(cls_name, N, obs_dim, B, extra_adds, int_first=False):
             buf = getattr(rb, cls_name)(N)
             n = int(sym_int("n_adds", 0, N + extra_adds))
             ref = []
+            # interleaved histories: an intermediate sample_batch (concrete draw, result discarded) after add number
+            # `probe_after` (-1: none, n: after every add) must not change what the checked sample may return
+            pa = int(sym_int("probe_after", -1, n)) if n > 1 else -1
             for i in range(n):
                 tr = sym_transition_int(i, obs_dim) if (int_first and i == 0) else sym_transition(i, obs_dim)
                 buf.add_sample(**tr)
                 ref.append(tr)
                 ctx.check(len(buf) == min(i + 1, N), "length=min(n,N)")
+                if i < n - 1 and (pa == n or pa == i):
+                    from props.C04 import ProbeRng
+                    ctx.log.append("sample")
+                    buf.sample_batch(B, ProbeRng())
             ctx.log.append(f"{cls_name}(N={N}): {n} adds")
             if n == 0:
                 ctx.check(len(buf) == 0, "empty-buffer-length-0")
@@ -228,6 +235,7 @@ def main(tier, seed):
     rep.r.bounds = {"capacities": caps, "adds": f"symbolic n in [0, N+{extra}] (covers exact wrap-around and overwrite)", "batch_sizes": [1, 2] if tier == "quick" else [1, 3],
                     "observation_dims": [1, 2], "classes": ["ReplayBuffer", "LAP", "PrioritizedReplayBuffer", "MultiTaskReplayBuffer(T=2,3; thorough also 4)"],
                     "multitask_ops": 4 if tier == "quick" else 5,
+                    "interleaving": "plain buffers: add^n with an intermediate sample_batch (concrete draw, discarded) after one symbolic add position or after every add, then the checked sample",
                     "inductive_step": "one add_sample from an ARBITRARY state satisfying the representation invariant (symbolic cursor, length, contents): covers histories of any length for these capacities"}
     rep.r.assumptions = ["np.empty/asarray inside replay_buffer.py replaced by object-array allocators (poisoned slots); all other numpy semantics are numpy's own",
                          "jnp.asarray is the identity (device transfer not modelled)", "generator draws: arbitrary ints in [lo,hi) / reals in the open interval (0,1)",
